@@ -7,7 +7,7 @@ faults it emits are explicit bit/byte positions and values, so a replay file
 never depends on the map.
 """
 
-from sim.core import ensure_repo, SimFile
+from sim.core import ensure_repo, SimFile, OutOfScope
 
 ensure_repo()
 
@@ -18,6 +18,7 @@ from vc2_conformance.bitstream import (  # noqa: E402
     to_bit_offset,
 )
 from vc2_conformance.pseudocode.state import State  # noqa: E402
+from sim import receivers as _R  # noqa: E402
 
 # --------------------------------------------------------------------------
 # bit helpers
@@ -198,6 +199,10 @@ class FieldMap(object):
         reader = BitstreamReader(SimFile(data))
 
         def mon(des, target, value):
+            # the same size bounds as everywhere else: a history or a faulted
+            # stream may declare huge slice counts
+            if target in _R.BOUNDS or target == "custom_dimensions_flag":
+                _R.scope_check(target, value)
             pos = to_bit_offset(*des.io.tell())
             start = last[0]
             last[0] = pos
@@ -227,7 +232,7 @@ class FieldMap(object):
             with MonitoredDeserialiser(mon, reader) as des:
                 parse_stream(des, State())
             self.complete = True
-        except Exception:
+        except (Exception, OutOfScope):
             pass
         for i, u in enumerate(self.units):
             u["end"] = self.units[i + 1]["start"] if i + 1 < len(self.units) else len(data)
@@ -288,7 +293,7 @@ def interesting_value(rng, f):
 
 
 BYTE_KINDS = ["flip", "set", "burst", "zero", "trunc", "del", "dup", "ins", "swap", "append"]
-FIELD_KINDS = ["f_fixed", "f_uint", "f_bool", "f_coeff", "f_offsets", "f_picnum", "f_trunc_unit", "f_unit_drop", "f_unit_dup", "f_lenbyte", "f_ld_resize"]
+FIELD_KINDS = ["f_frag_alias", "f_fixed", "f_uint", "f_bool", "f_coeff", "f_offsets", "f_picnum", "f_trunc_unit", "f_unit_drop", "f_unit_dup", "f_lenbyte", "f_ld_resize"]
 ALL_KINDS = BYTE_KINDS + FIELD_KINDS
 
 
@@ -433,6 +438,30 @@ def gen_fault(rng, fmap, kind, data_len):
             return None
         u = rng.choice(fmap.units)
         return {"k": "del", "at": u["start"], "n": u["end"] - u["start"], "unit_code": u["code"]}, u["start"]
+    if kind == "f_frag_alias":
+        # rewrite the slice offsets of a continuation fragment to another pair
+        # naming the same linear slice index ((x + k*slices_x, y - k)), or to a
+        # neighbouring position
+        sxs = [f for f in fmap.fields if f.name == "slices_x"]
+        xs = [f for f in fmap.by_kind.get("fixed", []) if f.name == "fragment_x_offset"]
+        if not sxs or not xs:
+            return None
+        fx = rng.choice(xs)
+        fy = next((f for f in fmap.fields if f.name == "fragment_y_offset" and f.unit == fx.unit), None)
+        prior = [f for f in sxs if f.unit < fx.unit]
+        if fy is None or not prior:
+            return None
+        sx = prior[-1].value
+        x, y = fx.value, fy.value
+        cands = [(x + sx * y, 0), (x + sx, y), (x + 1, y), (x, y + 1)]
+        if y > 0:
+            cands += [(x + sx, y - 1)] * 3
+        nx_, ny_ = rng.choice(cands)
+        ops = [
+            {"k": "setbits", "bit": fy.start, "n": 16, "val": ny_ & 0xFFFF, "field": "fragment_y_offset"},
+            {"k": "setbits", "bit": fx.start, "n": 16, "val": nx_ & 0xFFFF, "field": "fragment_x_offset"},
+        ]
+        return {"k": "seq", "ops": ops}, fx.start // 8
     if kind == "f_ld_resize":
         # re-size the slices of one low-delay picture consistently: new
         # slice_bytes numerator/denominator and a slice data region of exactly
